@@ -192,6 +192,28 @@ CHECKS["C10"] = ("other",
     "exploration of compiled real generated parsers against the generic tree + Coq proof for the vector actions",
     "DESIGN.md §6 C10, reports/C08-C10-C11.md")
 
+CHECKS["C09"] = ("proof",
+    "Coq theorems over ALL grammar-file ASTs on which the builder model returns a grammar (and all check_identifier "
+    "oracles): prod_index_is_position, start_is_first_rule, alt_one_production (non-helper productions in order = the "
+    "alternatives in order with EMPTY removed), inline_string_resolves, meta_inheritance (own value, else the rule's, "
+    "else the default, incl. associativity), helper_shared, sugar_language (each use X?, X*, X+, X+[S], X*[S] resolves to "
+    "a helper with exactly the documented productions and exactly the documented language). The Gallina builder model "
+    "(literal mirror of grammar/builder.rs incl. every error return and panic site) is compared field by field with the "
+    "grammar the REAL compiler builds (hook dump) for generated files exercising every construct, error outcomes included.",
+    "machine-checked proof in Coq (builder model theorems) + model/implementation correspondence on the real dump",
+    "DESIGN.md §6 C09, reports/C09-C16.md")
+CHECKS["C16"] = ("proof",
+    "Coq theorems about the builder model: builder_no_panic_known (for every file whose AST has the parser's shape and "
+    "which is outside the explicit decidable class KnownPanicClass = an integer literal above u32::MAX, build_grammar "
+    "never reaches a panic site), builder_no_panic_refuted (witness for that class: recorded finding), builder_total (never "
+    "out of fuel), known_class_panic_site. Partial: the grammar-text parser and the table/generator stages are not "
+    "modelled; they are decided by exploration: a malformed/odd stream of grammar texts (token-level mutations, every "
+    "syntax construct, keyword-like and reserved names, huge numbers, conflicts with priorities) through the real "
+    "compiler x {LR,GLR} x table types x shift preferences and through the real rcomp binary; every outcome must be a "
+    "parser or a diagnostic; a panic/timeout/crash is a violation keyed by panic site.",
+    "machine-checked proof in Coq (panic-freedom of the builder model outside an explicit class) + exploration of the "
+    "real compiler and rcomp on a malformed grammar stream", "DESIGN.md §6 C16, reports/C09-C16.md")
+
 PENDING_REASON = ("not yet claimed: check under construction (DESIGN.md §6 describes the planned theorem, validator and "
                   "correspondence); it is registered only once it runs end to end")
 
